@@ -11,6 +11,7 @@ package main
 import (
 	"bytes"
 	"fmt"
+	"math/big"
 	"reflect"
 	"strings"
 	"time"
@@ -22,6 +23,7 @@ import (
 	"github.com/kstenerud/go-concise-encoding/configuration"
 	"github.com/kstenerud/go-concise-encoding/cte"
 	"github.com/kstenerud/go-concise-encoding/nullevent"
+	"github.com/kstenerud/go-concise-encoding/types"
 )
 
 func init() {
@@ -41,7 +43,15 @@ type c07Mixed struct {
 }
 
 func c07Templates(rng *Rng) (interface{}, string) {
-	switch rng.Intn(10) {
+	switch rng.Intn(14) {
+	case 10:
+		return float64(0), "float64"
+	case 11:
+		return (*big.Int)(nil), "*big.Int"
+	case 12:
+		return uint8(0), "uint8"
+	case 13:
+		return []float32{}, "[]float32"
 	case 0:
 		return nil, "nil"
 	case 1:
@@ -79,7 +89,15 @@ func c07Inputs(rng *Rng, cfg *configuration.Configuration, tier string) ([]byte,
 		}
 		return d
 	}
-	switch rng.Intn(14) {
+	switch rng.Intn(15) {
+	case 14:
+		// a few bytes that denote an enormous (or tiny) number: refusing it must not cost more than reading it
+		// (fix b69f20e: the error message printed 0x1p2000000000 in decimal)
+		num := []string{"0x1p2000000000", "-0x1.8p-2000000000", "0x1p999999999", "1e2000000000", "-1.5e-2000000000", "0x1p70000", "1e400"}[rng.Intn(7)]
+		if rng.P(1, 2) {
+			return []byte("c0\n[" + num + " " + num + "]"), "huge-exponent-list"
+		}
+		return []byte("c0\n" + num), "huge-exponent"
 	case 0:
 		return []byte{}, "empty"
 	case 1:
@@ -180,7 +198,23 @@ func runC07(r *Run) {
 			// ---- marshal a Go value
 			var v interface{}
 			what := ""
-			switch rng.Intn(14) {
+			switch rng.Intn(17) {
+			case 14:
+				// a Node among its own children (fix 7bafbb7: iterateNode had no depth guard)
+				children := make([]interface{}, 2)
+				n := types.Node{Value: 1, Children: children}
+				children[1] = n
+				v, what = n, "cyclic-node"
+			case 15:
+				children := make([]interface{}, 1)
+				n := &types.Node{Value: "v", Children: children}
+				children[0] = n
+				v, what = n, "cyclic-node-pointer"
+			case 16:
+				src := make([]interface{}, 1)
+				e := types.Edge{Source: src, Description: 1, Destination: 2}
+				src[0] = e
+				v, what = e, "cyclic-edge"
 			case 9:
 				n := &c07Cyclic{Name: "a"}
 				n.Self = n
